@@ -164,7 +164,7 @@ MonStep(m, evt, c) ==
       r == IF e \in E THEN m.x[e] ELSE MonX0
       SetX(m1, r1) == [m1 EXCEPT !.x[e] = r1]
       AddExec(m1, keys) == [m1 EXCEPT !.execs = @ \cup {e}, !.viol = @ \cup keys \cup NewExecKeys(m, e, c),
-                                      !.x[e].aft = @ \/ m.ret] IN
+                                      !.x[e].aft = @ \/ (c.wire /\ m.ret)] IN
   CASE evt.ev = "pick" ->
          \* passing over a usable offered host is remembered; an exhausted iterator ends the
          \* execution with the last attempt's error (or "no connections" if there was none)
